@@ -271,20 +271,36 @@ func (d *decider) judged(group, point string) {
 }
 
 func (d *decider) emit() {
+	split := func(m map[string]bool) (shapes, points []string) {
+		ss, ps := map[string]bool{}, map[string]bool{}
+		for k := range m {
+			i := strings.LastIndexByte(k, '|')
+			ss[k[:i]] = true
+			ps[k[i+1:]] = true
+		}
+		for k := range ss {
+			shapes = append(shapes, k)
+		}
+		for k := range ps {
+			points = append(points, k)
+		}
+		sort.Strings(shapes)
+		sort.Strings(points)
+		return
+	}
 	for _, b := range d.order {
 		p := d.pend[b]
-		var bad, good []string
+		good := map[string]bool{}
 		for pt := range d.tested[p.group] {
-			if p.points[pt] {
-				bad = append(bad, pt)
-			} else {
-				good = append(good, pt)
+			if !p.points[pt] {
+				good[pt] = true
 			}
 		}
-		sort.Strings(bad)
-		sort.Strings(good)
-		detail := p.detail + fmt.Sprintf(" | occurs at cause@moment %v; not at %v", bad, good)
-		w := map[string]any{"first": p.witness, "violating_points": bad, "passing_points": good}
+		bs, bp := split(p.points)
+		gs, gp := split(good)
+		detail := p.detail + fmt.Sprintf(" | %d violating cases: shapes %v at cause@moment %v; %d cases of the same family and engine do not violate: shapes %v at %v",
+			len(p.points), bs, bp, len(good), gs, gp)
+		w := map[string]any{"first": p.witness, "violating_shapes": bs, "violating_points": bp, "passing_shapes": gs, "passing_points": gp}
 		d.c.Violate(p.base, detail, w)
 	}
 }
@@ -329,6 +345,19 @@ func (d *decider) crash(tc tcase, mode string, cr *core.Crash) {
 		map[string]any{"case": tc, "mode": mode, "crash": cr})
 }
 
+func gotS(class string, code uint32) string {
+	if class == "exit" {
+		switch code {
+		case 0xffffffff:
+			return "exit(context-canceled)"
+		case 0xefffffff:
+			return "exit(deadline-exceeded)"
+		}
+		return "exit(other-code)"
+	}
+	return class
+}
+
 func firstWords(s string, n int) string {
 	var out []string
 	for _, w := range strings.Fields(strings.ReplaceAll(s, "\n", " ")) {
@@ -370,7 +399,7 @@ func (d *decider) tickedResult(tc tcase, r core.CaseResult) {
 		momentS = fmt.Sprint(tc.Moment)
 	}
 	point := fmt.Sprintf("%s|%s|%s|%s", t.Label, eng, cause, momentS)
-	pt := cause + "@" + momentS
+	pt := t.Label + "|" + cause + "@" + momentS
 
 	if t.CloseSyncNo {
 		d.violate("close-returned-but-IsClosed-false:"+eng, group, pt, "CloseWithExitCode returned but IsClosed() is false", wit())
@@ -424,10 +453,10 @@ func (d *decider) tickedResult(tc tcase, r core.CaseResult) {
 	// 1. bounded progress after the close was observed
 	switch t.Class {
 	case "loop", "tail":
-		if t.Capped || t.After > int64(t.TPI+1) {
+		if t.Capped || t.After > int64(t.TPI+1) || t.HostAfter > int64(t.TPI+1) {
 			d.violate("no-exit-check:"+t.Family+":"+eng, group, pt,
-				fmt.Sprintf("%s on %s: %d ticks after the tick that observed IsClosed()==true (ticks per iteration %d, bound %d); harness stopped the guest=%v; cause=%s moment=%s",
-					t.Label, eng, t.After, t.TPI, t.TPI+1, t.Capped, cause, momentS), wit())
+				fmt.Sprintf("%s on %s: %d ticks (%d host-function rounds) after the tick that observed IsClosed()==true (ticks per iteration %d, bound %d); harness stopped the guest=%v; cause=%s moment=%s",
+					t.Label, eng, t.After, t.HostAfter, t.TPI, t.TPI+1, t.Capped, cause, momentS), wit())
 		}
 	case "recursion":
 		if t.Capped {
@@ -461,11 +490,8 @@ func (d *decider) tickedResult(tc tcase, r core.CaseResult) {
 		c.Count("returned_exit_error_"+cause, 1)
 	}
 	if !okErr {
-		got := t.ErrClass
-		if t.ErrClass == "exit" {
-			got = fmt.Sprintf("exit(%#x)", t.ErrCode)
-		}
-		d.violate("wrong-result:"+t.Family+":"+eng+":"+cause+":got="+got, group, pt,
+		got := gotS(t.ErrClass, t.ErrCode)
+		d.violate("wrong-result:"+eng+":"+cause+":got="+got, group, pt,
 			fmt.Sprintf("%s on %s cause=%s moment=%s: call returned %s %q, want *sys.ExitError code %#x", t.Label, eng, cause, momentS, got, t.ErrText, t.WantCode), wit())
 		return
 	}
@@ -516,14 +542,14 @@ func (d *decider) watchdogResult(tc tcase, r core.CaseResult) {
 	if tc.Moment < 0 {
 		momentS = "before"
 	}
-	pt := cause + "@" + momentS
+	pt := w.Label + "|" + cause + "@" + momentS
 	if !w.ControlReturned {
 		c.Inconclusive("watchdog-control-did-not-return")
 		return
 	}
 	c.Count("watchdog_control_returned_"+eng, 1)
 	if w.ControlClass != "exit" || w.ControlCode != w.WantCode {
-		d.violate(fmt.Sprintf("wrong-result:loop:%s:%s:got=%s(%#x)", eng, cause, w.ControlClass, w.ControlCode), "wd:loop:"+eng, pt,
+		d.violate(fmt.Sprintf("wrong-result:%s:%s:got=%s", eng, cause, gotS(w.ControlClass, w.ControlCode)), "wd:loop:"+eng, pt,
 			fmt.Sprintf("watchdog control (plain loop) returned %s code %#x, want exit %#x", w.ControlClass, w.ControlCode, w.WantCode), witnessOf(tc, w))
 	}
 	d.evals++
@@ -544,11 +570,13 @@ func (d *decider) watchdogResult(tc tcase, r core.CaseResult) {
 	c.Count("watchdog_subject_returned", 1)
 	ok := w.SubjectClass == "exit" && w.SubjectCode == w.WantCode
 	if !ok && w.Class == "recursion" && w.SubjectClass == "stack-overflow" {
-		ok = true
+		// a tick-less recursion ends by itself, possibly before the cause arrives: nothing more can be asked
 		c.Count("recursion_ended_in_stack_overflow", 1)
+		c.Count("watchdog_recursion_overflowed_(cause_may_not_have_arrived)", 1)
+		return
 	}
 	if !ok {
-		d.violate(fmt.Sprintf("wrong-result:%s:%s:%s:got=%s", w.Family, eng, cause, w.SubjectClass), group, pt,
+		d.violate(fmt.Sprintf("wrong-result:%s:%s:got=%s", eng, cause, gotS(w.SubjectClass, w.SubjectCode)), group, pt,
 			fmt.Sprintf("tick-less %s on %s cause=%s moment=%s: returned %s code %#x %q, want exit %#x", w.Label, eng, cause, momentS, w.SubjectClass, w.SubjectCode, w.SubjectErr, w.WantCode), witnessOf(tc, w))
 		return
 	}
